@@ -221,7 +221,11 @@ static void barrier_hb_case(std::string kind, std::vector<int> topo,
           vf_note_fail((tag + ":stale-read").c_str(),
                        "thread %u read phase %ld of thread %u after barrier %d",
                        tid, bprobe[j], j, k);
-      b->wait(); // separate the reads from the next round's writes
+      // separate the reads from the next round's writes; not after the last
+      // round, so that the region consists of an ODD number of episodes
+      // (sense-reversing barriers: parity matters for a later reinit)
+      if (k < K || !P2)
+        b->wait();
     }
   });
   vf_window_end();
